@@ -204,6 +204,18 @@ Theorem C01_next_file_index_linear : forall (off f : nat) (ends : list nat), non
 Proof. exact next_file_index_linear. Qed.
 Print Assumptions C01_next_file_index_linear.
 
+(** 16. mergingIterator (case variants): first() = the least position of all merged posting lists, next(limit) keeps exactly
+    the positions above the limit. *)
+Theorem C01_merging_iter_spec : forall (ls : list (list nat)), Forall inc ls ->
+  match mfirst ls with
+  | None => forall l, In l ls -> l = []
+  | Some m => (exists l, In l ls /\ In m l) /\ forall l p, In l ls -> In p l -> m <= p
+  end /\
+  forall limit, Forall inc (mnext limit ls) /\
+     forall p, (exists l, In l (mnext limit ls) /\ In p l) <-> (limit < p /\ exists l, In l ls /\ In p l).
+Proof. exact merging_iter_spec. Qed.
+Print Assumptions C01_merging_iter_spec.
+
 (** the frequency function used by the correspondence runner satisfies the frequency hypothesis *)
 Lemma count_freq_sound : forall orbit c fn cs g, count_freq orbit c fn cs g = 0%N -> post orbit (ix_tris c fn) cs g = [].
 Proof.
@@ -319,4 +331,6 @@ Example ex_andline : andline_alg (fun o => o / 10) [[3; 25]; [14; 27]; [21]] 2 =
                      andline_alg (fun o => o / 10) [[3; 25]; [14; 37]; [21]] 2 = false.
 Proof. vm_compute. auto. Qed.
 Example ex_gallop : next_file_index 57 0 [3; 3; 10; 20; 31; 40; 55; 57; 60; 72] = 8 /\ find_end 57 [3; 3; 10; 20; 31; 40; 55; 57; 60; 72] 0 = 8.
+Proof. vm_compute. auto. Qed.
+Example ex_merge : mfirst [[5; 9]; []; [2; 7]] = Some 2 /\ mnext 5 [[5; 9]; []; [2; 7]] = [[9]; []; [7]].
 Proof. vm_compute. auto. Qed.
